@@ -22,6 +22,13 @@ CLAIMS = {
             "other sequence numbers and forged all-padding plaintexts; live connections behind the proxy show that duplicated, swapped, dropped or altered application records are refused.",
             "Trusted: TLC, reference primitive tables, harness drivers. Identity over all lengths is observed through the library's own protect+unprotect with bytes compared by the driver.",
             "4/C11"),
+    "C07": ("model_checking",
+            "TLC model checking of Chain.tla (ghost variables sound/must vs the path walk, full attribute product, negative config) + replay of TLC-judged chains into x509_certs_verify(_tlcp)",
+            "TLC covers every chain of leaf [+TLCP encryption leaf] + intermediates + anchor over the attribute product while visiting a few hundred abstract states, proving accept => sound and reject => ~must for the "
+            "modelled walk and that the incremental ghosts equal the whole-chain property functions; as-built chains with every one- and two-attribute change plus simulated walks are concretised with the reference "
+            "X.509 writer and the code's verdict is compared with the property value TLC computed.",
+            "Trusted: TLC, reference DER/X.509 writer and SM2 signer, interposed clock. Attribute classes stand for concrete representatives.",
+            "4/C07"),
     "C08": ("model_checking",
             "TLC model checking of Tls.tla/TlsStream.tla + trace validation of real connections against TlsTrace.tla",
             "TLC checks key agreement and honest-run liveness for the three handshakes and the chunked stream contract exhaustively on the small model; "
